@@ -305,6 +305,42 @@ func builtinBoundaryScenarios() []refScenario {
 	return out
 }
 
+// mixedKindSelections: option sequences of length 3 and 4 that mix the kinds of option -- a pattern
+// (--include / --exclude PREFIX), predefined groups (--branches, --no-tags ...), a pattern again -- over references
+// that two or three of them match: the position on the command line decides, whatever kind an option is.
+func mixedKindSelections(rng *rand.Rand, sample int) []refScenario {
+	refs := []string{"refs/heads/main", "refs/heads/wip/a", "refs/heads/wip/old/b", "refs/tags/v1", "refs/tags/v2", "refs/remotes/o/main", "refs/notes/n", "refs/misc/x"}
+	var pats, nss []refOpt
+	for _, pol := range []string{"include", "exclude"} {
+		for _, p := range []string{"refs/heads", "refs/heads/wip", "refs/heads/wip/old", "refs/tags/v1", "refs/tags", "refs"} {
+			pats = append(pats, refOpt{Pol: pol, Kind: "prefix", Pat: p})
+		}
+		for _, b := range []string{"branches", "tags", "remotes"} {
+			nss = append(nss, refOpt{Pol: pol, Kind: "builtin", Pat: b})
+		}
+	}
+	var seqs [][]refOpt
+	for _, a := range pats {
+		for _, n1 := range nss {
+			for _, b := range pats {
+				seqs = append(seqs, []refOpt{a, n1, b})
+				if rng.Intn(6) == 0 {
+					n2 := nss[rng.Intn(len(nss))]
+					seqs = append(seqs, []refOpt{a, n1, n2, b}, []refOpt{n2, a, n1, b})
+				}
+			}
+		}
+	}
+	var out []refScenario
+	for i, sq := range seqs {
+		if sample > 0 && rng.Intn(len(seqs)) >= sample {
+			continue
+		}
+		out = append(out, refScenario{ID: fmt.Sprintf("mk%d", i+1), Class: "mixed-kinds", Refs: refs, Opts: sq})
+	}
+	return out
+}
+
 // forestScenarios: refgroup forests over p, p.x, p.y, p.x.z where every group has no rules, an include,
 // or an include plus an exclude, so that rule-less parents with several matching subgroups, nested
 // rule-less groups and Other buckets all occur; optionally selected through @group options.
@@ -434,10 +470,12 @@ func checkC06(c *Ctx) {
 	if quick(c) {
 		scs = append(scs, systematicSelections(rng, 3, 250)...)
 		scs = append(scs, builtinBoundaryScenarios()...)
+		scs = append(scs, mixedKindSelections(rng, 250)...)
 		scs = append(scs, forestScenarios(rng, 15)...)
 	} else {
 		scs = append(scs, systematicSelections(rng, 3, 100000)...)
 		scs = append(scs, builtinBoundaryScenarios()...)
+		scs = append(scs, mixedKindSelections(rng, 0)...)
 		for _, sc := range systematicSelections(rng, 4, 3000) {
 			sc.ID = "z" + sc.ID // the two systematic families number their scenarios independently
 			scs = append(scs, sc)
